@@ -305,9 +305,9 @@ class World(EventDispatcher):
                 if not self._components[component_type]:
                     del self._components[component_type]
 
-                # Event handling
-                if (hasattr(component, '__events__')
-                        and ON_REMOVE_EVENT_NAME in component.__events__):
+                # Event handling, all handlers stop listening, whether
+                # or not they handle on_remove
+                if hasattr(component, '__events__'):
                     # Code replication
                     # If dispatching is enabled, call on_remove directly
                     # to gain performance. Otherwise an event is dispatched
@@ -316,8 +316,9 @@ class World(EventDispatcher):
                         getattr(component,
                                 component.__events__[ON_REMOVE_EVENT_NAME])(
                                     entity, self)
-                    # on_add exists but dispatching is disabled
-                    elif not self._dispatch_enabled:
+                    # on_remove exists but dispatching is disabled
+                    elif (ON_REMOVE_EVENT_NAME in component.__events__
+                            and not self._dispatch_enabled):
                         self.dispatch(ON_SINGLE_DISPATCH_EVENT_NAME,
                                       ON_REMOVE_EVENT_NAME,
                                       component, entity, self)
@@ -373,8 +374,9 @@ class World(EventDispatcher):
                         getattr(removed,
                                 removed.__events__[ON_REMOVE_EVENT_NAME])(
                                     entity, self)
-                    # on_add exists but dispatching is disabled
-                    elif not self._dispatch_enabled:
+                    # on_remove exists but dispatching is disabled
+                    elif (ON_REMOVE_EVENT_NAME in removed.__events__
+                            and not self._dispatch_enabled):
                         self.dispatch(ON_SINGLE_DISPATCH_EVENT_NAME,
                                       ON_REMOVE_EVENT_NAME,
                                       removed, entity, self)
@@ -469,8 +471,9 @@ class World(EventDispatcher):
                         and self._dispatch_enabled):
                     getattr(removed,
                             removed.__events__[ON_REMOVE_EVENT_NAME])()
-                # on_add exists but dispatching is disabled
-                elif not self._dispatch_enabled:
+                # on_remove exists but dispatching is disabled
+                elif (ON_REMOVE_EVENT_NAME in removed.__events__
+                        and not self._dispatch_enabled):
                     self.dispatch(ON_SINGLE_DISPATCH_EVENT_NAME,
                                   ON_REMOVE_EVENT_NAME, removed)
 
